@@ -29,6 +29,8 @@ def run(ctx: Context) -> None:
     ctx.rule('R18.8', "distances along the path are measured from projections centred on the path vertices themselves", floor=1)
     from . import infra as _infra
     _infra.crs_centre(ctx, 'R18.8')
+    # the prepared array is used by position: every exit of move_dimensions_to_end has (depth, index) last, in that order
+    _infra.move_dimensions_exits(ctx, 'R18.4')
     from .common import adopt_foundations as _adopt
     _adopt(ctx, 'R18.7', ['geometry', 'order'], floor=60)
     ctx.assume("NOT decided: segment geometry (inside the cell, lengths adding up) and metre distances: GEOS / cartopy at run time")
